@@ -275,11 +275,12 @@ Record WF (p : packet) : Prop := mkWF {
   wf_ntags : len (p_tags p) <= PacketMaxTags;
   wf_devlen : len (p_dev p) = IDSize;
   wf_dev0 : exists b r, p_dev p = b :: r /\ b <> 0;
-  wf_paylen : len (p_pay p) < 9223372036854775808 }.
+  wf_paylen : len (p_pay p) < 9223372036854775808;
+  wf_rpos : 0 <= p_rpos p <= len (p_pay p) }.
 
 Lemma wf_WF p : wf p = true -> WF p.
 Proof.
-  unfold wf. rewrite !andb_true_iff. intros [[[[[[[[[[[[A B] C] D] E] F] G] H] I] J] K] L] M].
+  unfold wf. rewrite !andb_true_iff. intros [[[[[[[[[[[[[[A B] C] D] E] F] G] H] I] J] K] L] M] N] O].
   constructor; try lia.
   - rewrite forallb_forall in G. apply Forall_forall. intros t Ht. specialize (G t Ht). unfold nonzero_tag in G. lia.
   - destruct (p_dev p) as [|b r]; [discriminate|]. exists b, r. split; [reflexivity|]. intros ->. discriminate.
@@ -291,11 +292,23 @@ Proof.
   replace (t =? 0) with false by lia. rewrite IH. reflexivity.
 Qed.
 
+(* after Seek(0,0) WriteTo writes the whole buffer *)
+Lemma write_to_rewind p : write_to (rewind p) = p_pay p.
+Proof.
+  unfold write_to, chunk_empty, unread_bytes, rewind, set_rpos. cbn [p_pay p_rpos].
+  destruct (Z.leb_spec (len (p_pay p)) 0) as [H|H].
+  - destruct (p_pay p) as [|x l]; [reflexivity | rewrite len_cons in H; pose proof (len_nonneg l); lia].
+  - apply drop_nonpos. lia.
+Qed.
+
 Theorem marshal_wf p : wf p = true -> marshal p = Ok (wire p).
 Proof.
   intros H. apply wf_WF in H. destruct H. unfold marshal, write_header, write_body, wire.
   replace (PacketMaxTags <? len (p_tags p)) with false by lia. cbn [bind].
-  rewrite write_tags_ok by assumption. reflexivity.
+  rewrite write_tags_ok by assumption. cbn [bind]. rewrite write_to_rewind.
+  destruct (chunk_size (rewind p) =? 0) eqn:E0; [|reflexivity].
+  unfold chunk_size, rewind, set_rpos in E0. cbn [p_pay] in E0.
+  destruct (p_pay p) as [|x l]; [rewrite !app_nil_r; reflexivity | rewrite len_cons in E0; pose proof (len_nonneg l); lia].
 Qed.
 
 (* the number of length bytes after the class byte *)
@@ -331,13 +344,15 @@ Proof.
   unfold wire. rewrite !len_app, header_length, len_concat_be32 by assumption. lia.
 Qed.
 
-(* Size() against the real length: never smaller for a non-empty payload; on an empty payload it
-   ignores the tags (recorded) *)
-Lemma size_ge_marshal p b : wf p = true -> marshal p = Ok b -> p_pay p <> [] -> len b <= size p.
+(* Size() against the real length: never smaller while unread payload remains; on an empty payload
+   it ignores the tags (recorded); on a payload consumed to its end it is the bare header size
+   although Marshal writes the whole buffer (recorded) *)
+Lemma size_ge_marshal p b : wf p = true -> marshal p = Ok b -> p_rpos p < len (p_pay p) -> len b <= size p.
 Proof.
-  intros H E Hne. rewrite (marshal_length p b H E). unfold size, len_bytes, PacketHeaderSize, LimitSmall, LimitMedium, LimitLarge.
-  assert (0 < len (p_pay p)). { destruct (p_pay p); [contradiction|]. rewrite len_cons. pose proof (len_nonneg l). lia. }
+  intros H E Hne. rewrite (marshal_length p b H E). unfold size, chunk_empty, len_bytes, PacketHeaderSize, LimitSmall, LimitMedium, LimitLarge.
+  apply wf_WF in H. destruct H as [_ _ _ _ _ _ _ _ R].
   pose proof (len_nonneg (p_tags p)).
+  replace (len (p_pay p) <=? p_rpos p) with false by lia.
   replace (len (p_pay p) =? 0) with false by lia.
   destruct (len (p_pay p) <? 256) eqn:A, (len (p_pay p) <? 65536) eqn:B, (len (p_pay p) <? 4294967296) eqn:C;
   destruct (len (p_pay p) + 46 + 4 * len (p_tags p) <? 256) eqn:A', (len (p_pay p) + 46 + 4 * len (p_tags p) <? 65536) eqn:B',
@@ -346,8 +361,12 @@ Qed.
 Lemma size_empty_ignores_tags p b : wf p = true -> marshal p = Ok b -> p_pay p = [] ->
   size p = PacketHeaderSize /\ len b = PacketHeaderSize + 4 * len (p_tags p).
 Proof.
-  intros H E Hp. rewrite (marshal_length p b H E). unfold size, len_bytes. rewrite Hp. cbn. lia.
+  intros H E Hp. rewrite (marshal_length p b H E). apply wf_WF in H. destruct H as [_ _ _ _ _ _ _ _ R].
+  unfold size, chunk_empty, len_bytes. rewrite Hp in *. rewrite len_nil in *.
+  replace (0 <=? p_rpos p) with true by lia. cbn. lia.
 Qed.
+Lemma size_consumed_is_header p : p_rpos p = len (p_pay p) -> size p = PacketHeaderSize.
+Proof. intros H. unfold size, chunk_empty. replace (len (p_pay p) <=? p_rpos p) with true by lia. reflexivity. Qed.
 
 (* ==== 3. Unmarshal over short reads ================================================ *)
 
@@ -487,24 +506,28 @@ Qed.
 
 (* THE round trip of the wire form: for every split of (wire p ++ rest) into non-empty short
    reads the reader returns exactly p and leaves exactly rest *)
-Lemma unmarshal_wire p : wf p = true -> consumes unmarshal (wire p) p.
+Lemma unmarshal_wire p : wf p = true -> consumes unmarshal (wire p) (rewind p).
 Proof.
-  intros H s rest Hs Hc. apply wf_WF in H. pose proof H as W. destruct H as [A B C D E F G I].
+  intros H s rest Hs Hc. apply wf_WF in H. pose proof H as W. destruct H as [A B C D E F G I R].
   unfold wire in Hc. rewrite <- !app_assoc in Hc. unfold unmarshal.
   destruct (read_header_ok p W s _ Hs Hc) as (s1 & E1 & C1 & N1). rewrite E1. cbn [bind].
   unfold len at 1. rewrite Nat2Z.id.
   destruct (read_tags_ok (p_tags p) D s1 _ N1 C1) as (s2 & E2 & C2 & N2). rewrite E2. cbn [bind].
   destruct (Z.eqb_spec (len (p_pay p)) 0) as [Z0|Z0].
   - assert (Hp : p_pay p = []) by (destruct (p_pay p); [reflexivity | rewrite len_cons in Z0; pose proof (len_nonneg l); lia]).
-    cbn [bind]. rewrite Hp in C2. exists s2. destruct p; cbn in *; subst. repeat split; assumption.
+    cbn [bind]. rewrite Hp in C2. exists s2. destruct p; unfold rewind, set_rpos; cbn in *; subst. repeat split; assumption.
   - assert (Hp : p_pay p <> []) by (intros Hp; rewrite Hp in Z0; apply Z0; reflexivity).
     destruct (read_body_exact (p_pay p) Hp s2 rest N2 C2) as (s3 & E3 & C3 & N3). rewrite E3. cbn [bind].
-    exists s3. destruct p; cbn in *. repeat split; assumption.
+    exists s3. destruct p; unfold rewind, set_rpos; cbn in *. repeat split; assumption.
 Qed.
+
+(* the reader hands out a fresh packet: the whole buffer, cursor at 0 (= p itself when p is fresh) *)
+Lemma rewind_fresh p : p_rpos p = 0 -> rewind p = p.
+Proof. destruct p; unfold rewind, set_rpos; cbn. intros ->. reflexivity. Qed.
 
 Theorem unmarshal_marshal p b s rest :
   wf p = true -> marshal p = Ok b -> no_empty s -> concat s = b ++ rest ->
-  exists s', unmarshal s = Ok (p, s') /\ concat s' = rest /\ no_empty s'.
+  exists s', unmarshal s = Ok (rewind p, s') /\ concat s' = rest /\ no_empty s'.
 Proof.
   intros H E. rewrite marshal_wf in E by exact H. injection E as <-. apply unmarshal_wire. exact H.
 Qed.
@@ -524,7 +547,7 @@ Qed.
 
 Lemma unmarshal_many_wire ps : Forall (fun p => wf p = true) ps ->
   forall fuel s, (length ps <= fuel)%nat -> no_empty s -> concat s = concat (map wire ps) ->
-  unmarshal_many fuel s = Ok ps.
+  unmarshal_many fuel s = Ok (map rewind ps).
 Proof.
   induction 1 as [|p ps Hp _ IH]; intros fuel s Hf Hs Hc.
   - cbn [map concat] in Hc. rewrite (no_empty_concat_nil s Hs Hc). destruct fuel; reflexivity.
@@ -546,7 +569,7 @@ Qed.
 Theorem packets_concat ps bs s :
   Forall (fun p => wf p = true) ps -> Forall2 (fun p b => marshal p = Ok b) ps bs ->
   no_empty s -> concat s = concat bs ->
-  unmarshal_many (S (length (concat s))) s = Ok ps.
+  unmarshal_many (S (length (concat s))) s = Ok (map rewind ps).
 Proof.
   intros Hw Hm Hs Hc.
   assert (Hb : bs = map wire ps).
@@ -579,9 +602,9 @@ Proof. intros. unfold take, len in *. apply firstn_all2. lia. Qed.
 
 (* the flat (Chunk) reader: exact consumption, so nested packets follow one another *)
 Theorem unmarshal_stream_marshal_stream p rest :
-  wf_stream p = true -> unmarshal_stream (marshal_stream p ++ rest) = Ok (p, rest).
+  wf_stream p = true -> unmarshal_stream (marshal_stream p ++ rest) = Ok (unread p, rest).
 Proof.
-  intros H. apply wf_stream_WFS in H. destruct H as [[A B C D E F (b0 & r0 & Hd & Hb0) G] I].
+  intros H. apply wf_stream_WFS in H. destruct H as [[A B C D E F (b0 & r0 & Hd & Hb0) G R] I].
   pose proof (len_nonneg (p_tags p)) as Lt. unfold PacketMaxTags in E.
   unfold marshal_stream, unmarshal_stream. rewrite <- !app_assoc.
   rewrite rd_u8_enc by exact A. cbn [bind]. rewrite rd_u16_enc by exact B. cbn [bind].
@@ -590,7 +613,7 @@ Proof.
   rewrite (rd_dev_ok (p_dev p) b0 r0) by assumption. cbn [bind].
   unfold PacketMaxTags. rewrite take_all by lia. rewrite Z.min_l by lia.
   unfold len at 1. rewrite Nat2Z.id. rewrite rd_tags_ok by exact D. cbn [bind].
-  rewrite rd_bytes_enc by exact I. cbn [bind].
+  rewrite rd_bytes_enc by (unfold unread_bytes; rewrite len_drop by lia; lia). cbn [bind].
   unfold tags_pad, PacketMaxTags. rewrite Z.min_l by lia. rewrite Z.sub_diag. cbn [Z.to_nat repeat]. rewrite app_nil_r.
   destruct p; reflexivity.
 Qed.
@@ -600,7 +623,7 @@ Proof. unfold marshal_stream, enc_u8. discriminate. Qed.
 
 Theorem stream_packets_concat ps : Forall (fun p => wf_stream p = true) ps ->
   forall fuel, (length ps <= fuel)%nat ->
-  unmarshal_stream_many fuel (concat (map marshal_stream ps)) = Ok ps.
+  unmarshal_stream_many fuel (concat (map marshal_stream ps)) = Ok (map unread ps).
 Proof.
   induction 1 as [|p ps Hp _ IH]; intros fuel Hf; [destruct fuel; reflexivity|].
   cbn [map concat length] in *. destruct fuel as [|fuel]; [lia|].
@@ -612,7 +635,7 @@ Proof.
 Qed.
 (* with the fuel `check` uses (CStreamMany) *)
 Corollary stream_packets_concat_check ps : Forall (fun p => wf_stream p = true) ps ->
-  let b := concat (map marshal_stream ps) in unmarshal_stream_many (S (length b)) b = Ok ps.
+  let b := concat (map marshal_stream ps) in unmarshal_stream_many (S (length b)) b = Ok (map unread ps).
 Proof.
   intros H b. apply stream_packets_concat; [exact H|]. subst b.
   assert (length ps <= length (concat (map marshal_stream ps)))%nat; [|lia].
@@ -658,48 +681,48 @@ Proof.
   apply (agree_bind rd_u8 srd_u8
     (fun id r1 => do '(job, r2) <- rd_u16 r1; do '(t, r3) <- rd_u16 r2; do '(fl, r4) <- rd_u64 r3; do '(d, r5) <- rd_dev r4;
        do '(ts, r6) <- rd_tags (Z.to_nat (Z.min t PacketMaxTags)) r5; do '(pay, r7) <- rd_bytes r6;
-       Ok (mkP id job fl (ts ++ tags_pad t) d pay, r7))
+       Ok (mkP id job fl (ts ++ tags_pad t) d pay 0, r7))
     (fun id r1 => do '(job, r2) <- srd_uN 2 r1; do '(t, r3) <- srd_uN 2 r2; do '(fl, r4) <- srd_uN 8 r3; do '(d, r5) <- read_device r4;
        do '(ts, r6) <- srd_tags (Z.to_nat (Z.min t PacketMaxTags)) r5; do '(pay, r7) <- srd_bytes r6;
-       Ok (mkP id job fl (ts ++ tags_pad t) d pay, r7))); [apply agree_u8|]. intros id.
+       Ok (mkP id job fl (ts ++ tags_pad t) d pay 0, r7))); [apply agree_u8|]. intros id.
   apply (agree_bind rd_u16 (srd_uN 2)
     (fun job r2 => do '(t, r3) <- rd_u16 r2; do '(fl, r4) <- rd_u64 r3; do '(d, r5) <- rd_dev r4;
        do '(ts, r6) <- rd_tags (Z.to_nat (Z.min t PacketMaxTags)) r5; do '(pay, r7) <- rd_bytes r6;
-       Ok (mkP id job fl (ts ++ tags_pad t) d pay, r7))
+       Ok (mkP id job fl (ts ++ tags_pad t) d pay 0, r7))
     (fun job r2 => do '(t, r3) <- srd_uN 2 r2; do '(fl, r4) <- srd_uN 8 r3; do '(d, r5) <- read_device r4;
        do '(ts, r6) <- srd_tags (Z.to_nat (Z.min t PacketMaxTags)) r5; do '(pay, r7) <- srd_bytes r6;
-       Ok (mkP id job fl (ts ++ tags_pad t) d pay, r7))); [apply agree_uN; lia|]. intros job.
+       Ok (mkP id job fl (ts ++ tags_pad t) d pay 0, r7))); [apply agree_uN; lia|]. intros job.
   apply (agree_bind rd_u16 (srd_uN 2)
     (fun t r3 => do '(fl, r4) <- rd_u64 r3; do '(d, r5) <- rd_dev r4;
        do '(ts, r6) <- rd_tags (Z.to_nat (Z.min t PacketMaxTags)) r5; do '(pay, r7) <- rd_bytes r6;
-       Ok (mkP id job fl (ts ++ tags_pad t) d pay, r7))
+       Ok (mkP id job fl (ts ++ tags_pad t) d pay 0, r7))
     (fun t r3 => do '(fl, r4) <- srd_uN 8 r3; do '(d, r5) <- read_device r4;
        do '(ts, r6) <- srd_tags (Z.to_nat (Z.min t PacketMaxTags)) r5; do '(pay, r7) <- srd_bytes r6;
-       Ok (mkP id job fl (ts ++ tags_pad t) d pay, r7))); [apply agree_uN; lia|]. intros t.
+       Ok (mkP id job fl (ts ++ tags_pad t) d pay 0, r7))); [apply agree_uN; lia|]. intros t.
   apply (agree_bind rd_u64 (srd_uN 8)
     (fun fl r4 => do '(d, r5) <- rd_dev r4;
        do '(ts, r6) <- rd_tags (Z.to_nat (Z.min t PacketMaxTags)) r5; do '(pay, r7) <- rd_bytes r6;
-       Ok (mkP id job fl (ts ++ tags_pad t) d pay, r7))
+       Ok (mkP id job fl (ts ++ tags_pad t) d pay 0, r7))
     (fun fl r4 => do '(d, r5) <- read_device r4;
        do '(ts, r6) <- srd_tags (Z.to_nat (Z.min t PacketMaxTags)) r5; do '(pay, r7) <- srd_bytes r6;
-       Ok (mkP id job fl (ts ++ tags_pad t) d pay, r7))); [apply agree_uN; lia|]. intros fl.
+       Ok (mkP id job fl (ts ++ tags_pad t) d pay 0, r7))); [apply agree_uN; lia|]. intros fl.
   apply (agree_bind rd_dev read_device
     (fun d r5 => do '(ts, r6) <- rd_tags (Z.to_nat (Z.min t PacketMaxTags)) r5; do '(pay, r7) <- rd_bytes r6;
-       Ok (mkP id job fl (ts ++ tags_pad t) d pay, r7))
+       Ok (mkP id job fl (ts ++ tags_pad t) d pay 0, r7))
     (fun d r5 => do '(ts, r6) <- srd_tags (Z.to_nat (Z.min t PacketMaxTags)) r5; do '(pay, r7) <- srd_bytes r6;
-       Ok (mkP id job fl (ts ++ tags_pad t) d pay, r7))); [apply agree_dev|]. intros d.
+       Ok (mkP id job fl (ts ++ tags_pad t) d pay 0, r7))); [apply agree_dev|]. intros d.
   apply (agree_bind (rd_tags (Z.to_nat (Z.min t PacketMaxTags))) (srd_tags (Z.to_nat (Z.min t PacketMaxTags)))
-    (fun ts r6 => do '(pay, r7) <- rd_bytes r6; Ok (mkP id job fl (ts ++ tags_pad t) d pay, r7))
-    (fun ts r6 => do '(pay, r7) <- srd_bytes r6; Ok (mkP id job fl (ts ++ tags_pad t) d pay, r7))); [apply agree_tags|]. intros ts.
+    (fun ts r6 => do '(pay, r7) <- rd_bytes r6; Ok (mkP id job fl (ts ++ tags_pad t) d pay 0, r7))
+    (fun ts r6 => do '(pay, r7) <- srd_bytes r6; Ok (mkP id job fl (ts ++ tags_pad t) d pay 0, r7))); [apply agree_tags|]. intros ts.
   apply (agree_bind rd_bytes srd_bytes
-    (fun pay r7 => Ok (mkP id job fl (ts ++ tags_pad t) d pay, r7))
-    (fun pay r7 => Ok (mkP id job fl (ts ++ tags_pad t) d pay, r7))); [apply agree_bytes|]. intros pay. apply agree_ret.
+    (fun pay r7 => Ok (mkP id job fl (ts ++ tags_pad t) d pay 0, r7))
+    (fun pay r7 => Ok (mkP id job fl (ts ++ tags_pad t) d pay 0, r7))); [apply agree_bytes|]. intros pay. apply agree_ret.
 Qed.
 
 (* the round trip of the nested form through data.NewReader, for every split into short reads *)
 Theorem unmarshal_srd_marshal_stream p s rest :
   wf_stream p = true -> no_empty s -> concat s = marshal_stream p ++ rest ->
-  exists s', unmarshal_srd s = Ok (p, s') /\ concat s' = rest /\ no_empty s'.
+  exists s', unmarshal_srd s = Ok (unread p, s') /\ concat s' = rest /\ no_empty s'.
 Proof.
   intros H Hs Hc. pose proof (stream_readers_agree s Hs) as Ag.
   rewrite Hc, unmarshal_stream_marshal_stream in Ag by exact H.
@@ -711,27 +734,32 @@ Qed.
 (* no encoding is a prefix of another one followed by anything: the boundary between two packets
    on a stream is determined by the bytes alone *)
 Theorem wire_prefix_free p q r1 r2 : wf p = true -> wf q = true ->
-  wire p ++ r1 = wire q ++ r2 -> p = q /\ r1 = r2.
+  wire p ++ r1 = wire q ++ r2 -> rewind p = rewind q /\ r1 = r2.
 Proof.
   intros Hp Hq E.
   assert (Hs : no_empty [wire p ++ r1]).
   { constructor; [|constructor]. intros H. apply app_eq_nil in H. destruct (wire_nonempty p Hp). tauto. }
   destruct (unmarshal_wire p Hp [wire p ++ r1] r1 Hs) as (s1 & E1 & C1 & _); [cbn [concat]; apply app_nil_r|].
   destruct (unmarshal_wire q Hq [wire p ++ r1] r2 Hs) as (s2 & E2 & C2 & _); [cbn [concat]; rewrite app_nil_r; exact E|].
-  rewrite E1 in E2. injection E2 as -> ->. split; [reflexivity | congruence].
+  rewrite E1 in E2. assert (X : (rewind p, s1) = (rewind q, s2)) by congruence.
+  pose proof (f_equal fst X) as X1. pose proof (f_equal snd X) as X2. cbn [fst snd] in X1, X2.
+  split; [exact X1 | congruence].
 Qed.
 
-Corollary marshal_injective p q b : wf p = true -> wf q = true -> marshal p = Ok b -> marshal q = Ok b -> p = q.
+Corollary marshal_injective p q b : wf p = true -> wf q = true -> marshal p = Ok b -> marshal q = Ok b -> rewind p = rewind q.
 Proof.
   intros Hp Hq Ep Eq. rewrite marshal_wf in Ep, Eq by assumption. injection Ep as <-. injection Eq as Eq.
   apply (wire_prefix_free p q [] [] Hp Hq). rewrite Eq. reflexivity.
 Qed.
 
 Theorem marshal_stream_prefix_free p q r1 r2 : wf_stream p = true -> wf_stream q = true ->
-  marshal_stream p ++ r1 = marshal_stream q ++ r2 -> p = q /\ r1 = r2.
+  marshal_stream p ++ r1 = marshal_stream q ++ r2 -> unread p = unread q /\ r1 = r2.
 Proof.
   intros Hp Hq E. pose proof (unmarshal_stream_marshal_stream p r1 Hp) as E1.
-  rewrite E, unmarshal_stream_marshal_stream in E1 by exact Hq. injection E1 as -> ->. split; reflexivity.
+  rewrite E, unmarshal_stream_marshal_stream in E1 by exact Hq.
+  assert (X : (unread q, r2) = (unread p, r1)) by congruence.
+  pose proof (f_equal fst X) as X1. pose proof (f_equal snd X) as X2. cbn [fst snd] in X1, X2.
+  split; [symmetry; exact X1 | symmetry; exact X2].
 Qed.
 
 (* ==== 7. a truncated encoding never yields a packet ============================================
@@ -847,3 +875,50 @@ Proof.
   rewrite E in H. injection H as _ ->. rewrite concat_app in C. cbn [concat] in C. rewrite app_nil_r in C.
   apply app_eq_nil in C. destruct C as [_ C]. contradiction.
 Qed.
+
+(* ==== 8. the read cursor of the payload Chunk ===================================================
+   Marshal rewinds (Seek(0,0)) and writes the WHOLE buffer: whatever the cursor was -- fresh,
+   partially read, consumed to the end, moved by Seek -- the bytes are the same, the header
+   announces exactly the bytes the body writes, and the cursor ends at the end of the buffer.
+   MarshalStream writes the UNREAD part only and leaves the cursor alone. *)
+Theorem marshal_cursor_irrelevant p k : marshal (set_rpos k p) = marshal p.
+Proof. reflexivity. Qed.
+
+Lemma wf_set_rpos p k : wf p = true -> 0 <= k <= len (p_pay p) -> wf (set_rpos k p) = true.
+Proof.
+  unfold wf, set_rpos. cbn [p_id p_job p_flags p_tags p_dev p_pay p_rpos].
+  rewrite !andb_true_iff. intros [[H _] _] Hk. repeat split; try apply H; lia.
+Qed.
+
+Lemma rewind_set_rpos p k : rewind (set_rpos k p) = rewind p.
+Proof. reflexivity. Qed.
+
+(* the round trip from every cursor position, in one statement *)
+Theorem unmarshal_marshal_any_cursor p k b s rest :
+  wf p = true -> 0 <= k <= len (p_pay p) -> marshal (set_rpos k p) = Ok b ->
+  no_empty s -> concat s = b ++ rest ->
+  exists s', unmarshal s = Ok (rewind p, s') /\ concat s' = rest /\ no_empty s'.
+Proof.
+  intros H Hk E. rewrite <- (rewind_set_rpos p k). apply unmarshal_marshal; [apply wf_set_rpos; assumption | exact E].
+Qed.
+
+Theorem after_marshal_cursor p : p_rpos (after_marshal p) = len (p_pay p) /\ p_pay (after_marshal p) = p_pay p.
+Proof.
+  unfold after_marshal, after_write_to, chunk_empty, chunk_size, rewind, set_rpos. cbn [p_pay p_rpos].
+  destruct (Z.eqb_spec (len (p_pay p)) 0) as [E|E]; cbn [p_pay p_rpos]; [split; [lia | reflexivity]|].
+  pose proof (len_nonneg (p_pay p)). replace (len (p_pay p) <=? 0) with false by lia. cbn [p_pay p_rpos]. split; reflexivity.
+Qed.
+
+(* the nested form: only the unread part travels *)
+Lemma drop_0 {A} (l : list A) : drop 0 l = l.
+Proof. reflexivity. Qed.
+Theorem marshal_stream_unread p : marshal_stream p = marshal_stream (unread p).
+Proof. unfold marshal_stream, unread, unread_bytes. cbn [p_id p_job p_flags p_tags p_dev p_pay p_rpos]. rewrite drop_0. reflexivity. Qed.
+Lemma unread_fresh p : p_rpos p = 0 -> unread p = p.
+Proof. destruct p; unfold unread, unread_bytes; cbn. intros ->. reflexivity. Qed.
+Theorem marshal_stream_cursor p k :
+  marshal_stream (set_rpos k p) =
+  marshal_stream (mkP (p_id p) (p_job p) (p_flags p) (p_tags p) (p_dev p) (drop k (p_pay p)) 0).
+Proof. rewrite marshal_stream_unread. reflexivity. Qed.
+Lemma fresh_is_fixed_point p : p_rpos p = 0 -> rewind p = p /\ unread p = p.
+Proof. intros H. split; [apply rewind_fresh | apply unread_fresh]; exact H. Qed.
